@@ -349,20 +349,7 @@ func c13Start(name string, cfgJSON []byte, ps c13PS) (inst *c13Inst, ok bool) {
 		return nil, false
 	}
 	ctl := &c13Ctl{}
-	seq := c13InstSeq.Add(1)
-	pname := "c13_" + strconv.FormatInt(seq, 10) // throttle keeps its limiters per pipeline name: fresh per case
-	if name == "hash" {
-		// hash caches its (stateless, slow to compile) normalizer by pipeline name + action index:
-		// one pipeline name per configuration lets the plugin's own cache work as in production
-		// (compiling the default "all" pattern set takes ~15 s)
-		var hc struct {
-			Normalizer json.RawMessage `json:"normalizer"`
-		}
-		_ = json.Unmarshal(cfgJSON, &hc)
-		h := fnv.New64a()
-		h.Write(hc.Normalizer)
-		pname = "c13_hash_" + strconv.FormatUint(h.Sum64(), 16)
-	}
+	pname := c13PipelineName(name, cfgJSON)
 	settings := &pipeline.Settings{
 		Capacity:                256,
 		AvgEventSize:            2048,
@@ -388,6 +375,23 @@ func c13Start(name string, cfgJSON []byte, ps c13PS) (inst *c13Inst, ok bool) {
 	}
 	plugin.Start(config, params)
 	return &c13Inst{name: name, plugin: plugin, ctl: ctl}, true
+}
+
+// c13PipelineName: a fresh pipeline name per instance (throttle keeps its limiters per pipeline
+// name), except for hash, which caches its stateless, slow to compile normalizer by pipeline name
+// + action index: one name per normalizer configuration lets the plugin's own cache work as in
+// production (compiling the default "all" pattern set takes ~15 s).
+func c13PipelineName(name string, cfgJSON []byte) string {
+	if name == "hash" {
+		var hc struct {
+			Normalizer json.RawMessage `json:"normalizer"`
+		}
+		_ = json.Unmarshal(cfgJSON, &hc)
+		h := fnv.New64a()
+		h.Write(hc.Normalizer)
+		return "c13_hash_" + strconv.FormatUint(h.Sum64(), 16)
+	}
+	return "c13_" + strconv.FormatInt(c13InstSeq.Add(1), 10)
 }
 
 func (in *c13Inst) stop() {
